@@ -47,7 +47,8 @@ RULE = ("seeded sequence pairs as in C08 (length 0-8 quick, a few long ones > IN
         "different (kind, parameters, a, b, matrix)")
 TRUSTED = ["numpy np.max/np.where/np.unique/np.flip/np.concatenate in the Python parts modelled by their documented semantics",
            "Alignment.trace rows are handed to the Lean checker as printed integers"]
-ASSUMPTIONS = ["NoOverflow: every table entry fits int32 (|matrix|,|gap| <= 6, threshold <= 10^6 in the valid stream)",
+ASSUMPTIONS = ["NoOverflow: every table entry fits int32; the valid stream reaches the exact bound (entries up to 10^7, threshold up "
+               "to 2^31-3-(n+m+2)*max|score|), beyond it the int32 wrap-around is the known finding C09/overflow/int32-wraps",
                "the pseudo -inf of the banded tables and the 0 = invalid convention of the X-drop tables are modelled as `none`",
                "banded affine model: none = -inf wherever the sentinel cannot underflow (max(open,ext)+ext >= min(open,ext)+min(min_score,0)), "
                "the code's concrete sentinel with int32 wrap-around otherwise (known finding)"]
@@ -532,6 +533,13 @@ def cannot_bind(c):
 
 
 def oracle(case):
+    try:
+        return _oracle(case)
+    except _Unexpected as e:
+        return [("C09/oracle/unexpected-exception", f"{e}; {_brief(case)}")]
+
+
+def _oracle(case):
     c = case
     k = c.get("kind")
     if k not in ("banded", "gapped", "ungapped"):
@@ -558,16 +566,27 @@ def oracle(case):
                 for what, msg in _SIDE.get((signature(c), False, c.get("w1"), c.get("w2")), [])]
         if side:
             return side
-        if malformed == "mts" and name == "ERR:MemoryError":
+        if malformed == "mts" and name == "ERR:MemoryError" and c["mts"] > 0:
             return _mts_oracle(c)
+        if malformed == "mts" and (name == "ERR:MemoryError") != (c["mts"] > 0) and name != "CRASH":
+            return [(f"C09/{k}/malformed/mts/wrong-exception",
+                     f"max_table_size={c['mts']} refused with {name} (documented: ValueError for <= 0, MemoryError when exceeded); {_brief(c)}")]
+        if c.get("overflow"):
+            # beyond int32: an OverflowError is a clean refusal; anything else is part of the int32 finding
+            return [] if name == "ERR:OverflowError" else [(KEY_OVERFLOW, f"{k} raised {name} at the int32 bound; {_brief(c)}")]
         if malformed:
             if name == "CRASH":
                 return [(f"C09/{k}/malformed/{malformed}/crash", f"{k} crashed on malformed input {malformed}: {_brief(c)}")]
-            return []           # rejected: all the property asks for
+            want = EXPECTED_REFUSAL.get(malformed)
+            if want is not None and name not in want:
+                return [(f"C09/{k}/malformed/{malformed}/wrong-exception",
+                         f"{k} refused malformed input ({malformed}) with {name}, documented: {' / '.join(want)}; {_brief(c)}")]
+            return []           # refused as documented: all the property asks for
         return [(tag + "/raises-" + name.replace("ERR:", ""), f"{k} raised {name} on valid input {_brief(c)}")]
-    if malformed and malformed not in ("mts",):
-        # accepted although malformed: still held to validity below (never corrupted)
-        pass
+    if malformed and malformed in MUST_REFUSE and not (malformed == "mts" and c["mts"] > 0):
+        # a call the documented contract refuses was accepted silently
+        return [(f"C09/{k}/malformed/{malformed}/accepted",
+                 f"{k} accepted malformed input ({malformed}) and returned {str(res)[:120]}; {_brief(c)}")]
     if not res:
         return [(tag + "/no-alignment", f"empty result list: {_brief(c)}")]
     for what, msg in _SIDE.get((signature(c), False, c.get("w1"), c.get("w2")), []):
@@ -628,7 +647,7 @@ def oracle(case):
         except Exception as e:  # noqa: BLE001
             v.append((tag + "/score-only-raises", f"score_only raised {_err(e)}; {_brief(c)}"))
     # never above the optimum of the unrestricted problem
-    if n * m <= 900:
+    if n * m <= 26000:
         ug = gap if k != "ungapped" else [min(-1, -max(abs(x) for r in Mx for x in r) * (n + m + 1))]
         semi_aff = (mode == "s" and len(gap) == 2)
         best = rec_opt(mode, a, b, Mx, ug, relaxed=semi_aff)
@@ -706,6 +725,8 @@ def oracle(case):
             if k == "gapped" and d == "both" and c.get("on_optimal") and sc != best:
                 v.append((tag + "/seed-on-optimal-not-optimal", f"seed on an optimal alignment, score {sc} != optimum {best}; {_brief(c)}"))
     v = _classify(c, res, v, tag)
+    if c.get("overflow"):
+        v = [(KEY_OVERFLOW, msg) for _, msg in v]
     seen, out = set(), []
     for key, msg in v:
         if key not in seen:
@@ -714,6 +735,17 @@ def oracle(case):
     return out
 
 
+KEY_OVERFLOW = "C09/overflow/int32-wraps"
+# what the documented contract says about input outside the domain: exception class per reason
+EXPECTED_REFUSAL = {
+    "gap-positive": ("ERR:ValueError",), "gap-zero": ("ERR:ValueError",), "max_number": ("ERR:ValueError",),
+    "band-no-overlap": ("ERR:ValueError",), "empty-sequence": ("ERR:ValueError",),
+    "seed-out-of-range": ("ERR:IndexError",), "threshold-negative": ("ERR:ValueError",),
+    "mts": ("ERR:ValueError", "ERR:MemoryError"), "c-int-overflow": ("ERR:OverflowError",),
+}
+# reasons for which acceptance is itself a violation ("empty-sequence": align_banded may also return the empty alignment)
+MUST_REFUSE = {"gap-positive", "gap-zero", "max_number", "band-no-overlap", "seed-out-of-range", "threshold-negative", "mts",
+               "c-int-overflow"}
 KEY_LEADING_GAP = "C09/banded/semiglobal/{}/leading-gap-shown-as-pair"
 KEY_NEG_INF = "C09/banded/semiglobal/affine/neg-inf-underflow"
 
@@ -810,7 +842,18 @@ def table_sizes(c):
     return out
 
 
+class _Unexpected(Exception):
+    pass
+
+
 def _mts_oracle(c):
+    try:
+        return _mts_oracle_inner(c)
+    except _Unexpected as e:
+        return [("C09/gapped/max_table_size/unexpected-exception", f"{e}; {_brief(c)}")]
+
+
+def _mts_oracle_inner(c):
     """max_table_size: the call raised MemoryError at limit L.  Find the smallest limit the call accepts (the outcome
     is monotone in the limit) and require (1) it is a size the table can actually have - 'exceed' means strictly
     greater, so a table of exactly max_table_size cells is allowed - and (2) the accepted call returns what the
@@ -824,7 +867,7 @@ def _mts_oracle(c):
         except Exception as e:  # noqa: BLE001
             if _err(e) == "ERR:MemoryError":
                 return None
-            raise
+            raise _Unexpected(f"max_table_size={lim}: {_err(e)}")
     try:
         free = _call_safe(dict(c, mts=None))
     except Exception as e:  # noqa: BLE001
@@ -853,16 +896,18 @@ def _mts_oracle(c):
 
 
 def _align_optimal_score(c, mode, gap):
+    """align_optimal as reference.  Abstains only for an empty sequence (affine + empty raises IndexError: C08 known finding)
+    and in the int32 stream; any other exception of the reference on well-formed input is reported, not swallowed."""
     import biotite.sequence.align as align
-    if not c["a"] or not c["b"]:
+    if not c["a"] or not c["b"] or c.get("overflow"):
         return None
+    s1, s2, matrix = _build(c)
     try:
-        s1, s2, matrix = _build(c)
         r = align.align_optimal(s1, s2, matrix, gap_penalty=_pygap(gap), terminal_penalty=(mode != "s"),
                                 local=(mode == "l"), max_number=1)
-        return int(r[0].score)
-    except Exception:  # noqa: BLE001
-        return None
+    except Exception as e:  # noqa: BLE001
+        raise _Unexpected(f"reference align_optimal raised {type(e).__name__}: {e}")
+    return int(r[0].score)
 
 
 def _brief(c):
@@ -875,6 +920,8 @@ def _malformed(c):
     k = c["kind"]
     n, m = len(c["a"]), len(c["b"])
     gap = c["gap"]
+    if c.get("cint"):
+        return "c-int-overflow"
     if any(g > 0 for g in gap):
         return "gap-positive"
     if k != "banded" and any(g >= 0 for g in gap) and k == "gapped":
@@ -1015,8 +1062,17 @@ def _case(rng, maxlen=8, kind=None, allow_empty=False, malformed=False):
             c["mts"] = rng.choice([1, 2, 4, 9, 16, 30, 100, 10**6])
         if malformed:
             c["fork"] = True
-            what = rng.choice(["seed-hi", "seed-neg", "thr", "gap", "max", "mts"] if kind == "gapped" else ["seed-hi", "seed-neg", "thr"])
-            if what == "seed-hi":
+            what = rng.choice(["seed-hi", "seed-neg", "thr", "gap", "max", "mts", "empty"] if kind == "gapped"
+                              else ["seed-hi", "seed-neg", "thr", "empty"])
+            if what == "empty":          # an empty sequence has no position a seed could name
+                if rng.random() < 0.5:
+                    c["a"] = []
+                else:
+                    c["b"] = []
+                if rng.random() < 0.3:
+                    c["a"], c["b"] = [], []
+                c["seed"] = [0, 0]
+            elif what == "seed-hi":
                 c["seed"] = rng.choice([[n, rng.randrange(m)], [rng.randrange(n), m], [n + 3, m + 2]])
             elif what == "seed-neg":
                 c["seed"] = rng.choice([[-1, rng.randrange(m)], [rng.randrange(n), -1], [-2, -3]])
@@ -1403,7 +1459,10 @@ def _variants_child(c):
             buf = np.array([si, sj], dtype=np.int64)
             try:
                 rr = g(seed=buf, dr=dr)
-            except Exception:  # noqa: BLE001
+            except Exception as e:  # noqa: BLE001
+                if ref[0] == "ok":
+                    out.append((f"C09/{k}/spelling/seed-ndarray-direction-{dr}",
+                                f"valid request with an ndarray seed and direction={dr} raised {type(e).__name__}; {_brief(c)}"))
                 continue
             rr = rr if isinstance(rr, list) else [rr]
             before = [(int(x.score), x.trace.tolist()) for x in rr]
@@ -1419,8 +1478,10 @@ def _variants_child(c):
         got = run(fn)
         want = ref_so if use_so else ref
         if allowed == "must-raise":
-            if got[0] != "err":
-                pass        # acceptance of malformed input is judged by the malformed stream
+            want_exc = "IndexError" if name.startswith("refused:seed") else "ValueError"
+            if got != ("err", want_exc):
+                out.append((f"C09/{k}/malformed/{name[8:]}/not-refused-as-documented",
+                            f"{name}: {str(got)[:120]}, documented {want_exc}; {_brief(c)}"))
         elif got != want and not (got[0] == "err" and got[1] in allowed):
             out.append((f"C09/{k}/spelling/{name}", f"{name}: got {str(got)[:160]}, the canonical call on fresh objects gives "
                         f"{str(want)[:160]}; {_brief(c)}"))
@@ -1656,8 +1717,92 @@ def _banded_local_affine(rng):
     return c
 
 
+BIG = 2**31
+
+
+def no_overflow(c):
+    """NoOverflow (assumption of the Z-valued model): every table entry / running score fits int32"""
+    mag = max([abs(x) for r in c["M"] for x in r] + [abs(g) for g in c["gap"] if c["kind"] != "ungapped"])
+    span = (len(c["a"]) + len(c["b"]) + 2) * mag
+    if c["kind"] == "gapped":
+        return c["thr"] + 1 + span < BIG - 1
+    if c["kind"] == "ungapped":
+        return span < BIG - 1 and c["thr"] < BIG
+    return span + 2 * mag < BIG - 1
+
+
+def _magnitudes(rng, safe):
+    """matrix entries / penalties / thresholds far away from the usual +-6: `safe` keeps them inside NoOverflow (valid
+    stream, full ops: the Z-valued model must still agree), otherwise they sit at / beyond the int32 bound
+    (oracle only: wrap-around is a known finding, arguments that do not fit a C int must raise OverflowError)."""
+    k = rng.randint(2, 3)
+    kind = rng.choice(["banded", "gapped", "ungapped"])
+    a = [rng.randrange(k) for _ in range(rng.randint(1, 6))]
+    b = [rng.randrange(k) for _ in range(rng.randint(1, 6))]
+    n, m = len(a), len(b)
+    if safe:
+        mag = rng.choice([10**3, 10**5, 10**7])
+        M = [[rng.randint(-mag, mag) for _ in range(k)] for _ in range(k)]
+        gap = rng.choice([[-rng.randint(1, mag)], [-rng.randint(1, mag), -rng.randint(1, mag)]])
+    else:
+        style = rng.choice(["M", "M", "gap", "cint"] if kind == "banded" else ["M", "M", "gap", "thr", "thr", "cint"])
+        if kind == "ungapped" and style == "gap":
+            style = "M"
+        mag = rng.choice([BIG - 2, BIG - 2, 10**9, 2 * 10**8])
+        M = ([[rng.choice([mag, -mag, 0, mag - rng.randint(0, 3)]) for _ in range(k)] for _ in range(k)]
+             if style == "M" else [[rng.randint(-4, 5) for _ in range(k)] for _ in range(k)])
+        gap = ([-rng.choice([BIG - 1, BIG, 10**9])] * rng.randint(1, 2) if style == "gap" else
+               rng.choice([[-1], [-2, -1]]))
+    c = {"kind": kind, "a": a, "b": b, "M": M, "w1": "u8", "w2": "u8", "max": rng.choice([1, 3]), "gap": gap}
+    if kind == "banded":
+        c["local"] = rng.random() < 0.5
+        c["band"] = [-rng.randint(0, n), rng.randint(0, m)]
+        if len(gap) == 2 and safe and max(gap) + gap[1] < min(gap) + min(0, min(x for r in M for x in r)):
+            c["gap"] = [gap[0]]          # keep the (separately recorded) sentinel underflow out of this stream
+    else:
+        if kind == "ungapped":
+            c["gap"] = [-1000]
+        c["seed"] = [rng.randrange(n), rng.randrange(m)]
+        c["dir"] = rng.choice(["both", "upstream", "downstream"])
+        span = (n + m + 2) * max([abs(x) for r in M for x in r] + [abs(g) for g in gap])
+        if safe:
+            c["thr"] = rng.choice([0, 5, 10**6, BIG - 3 - span if kind == "gapped" else BIG - 1])
+            c["thr"] = max(0, c["thr"])
+        else:
+            c["thr"] = rng.choice([5, 5, BIG - 2, BIG - 3, BIG - 1 - rng.randint(1, 40)]) if style == "thr" else 5
+    if safe:
+        if not no_overflow(c):
+            c["thr"] = 5 if "thr" in c else None
+            if c.get("thr") is None:
+                c.pop("thr", None)
+        c["ops"] = _ops(c)
+        return c
+    c["overflow"] = not no_overflow(c)
+    if not c["overflow"]:
+        c.pop("overflow")
+    if style == "cint":
+        c["cint"] = True
+        c.pop("overflow", None)
+        # arguments converted to a C int at the call boundary (max_number / max_table_size of the seeded functions are
+        # converted only when a traceback / a table growth happens, so they are not demanded here)
+        what = rng.choice(["thr", "seed"] if kind != "banded" else ["max"])
+        if what == "thr":
+            c["thr"] = rng.choice([BIG, 2**40])
+        elif what == "seed":
+            c["seed"] = rng.choice([[BIG, 0], [0, 2**40]])
+        elif what == "max":
+            c["max"] = rng.choice([BIG, 2**40])
+        else:
+            c["mts"] = 2**63
+    return c
+
+
 def cases(rng, tier):
     quick = tier == "quick"
+    for k in range(120 if quick else 1200):
+        yield _magnitudes(rng, safe=True)
+    for k in range(80 if quick else 800):
+        yield _magnitudes(rng, safe=False)
     for k in range(250 if quick else 2500):
         yield _banded_local_affine(rng)
     for k in range(90 if quick else 600):
@@ -1753,7 +1898,7 @@ def nontrivial(case, impl_out):
 
 
 def signature(case):
-    keys = ["kind", "a", "b", "M", "gap", "local", "band", "seed", "thr", "dir", "max", "mts", "variants", "internal",
+    keys = ["kind", "a", "b", "M", "gap", "local", "band", "seed", "thr", "dir", "max", "mts", "variants", "internal", "overflow", "cint",
             "n", "m", "lo", "hi", "rows", "cols", "dim", "lim", "x", "y"]
     return "|".join(str(case.get(k)) for k in keys)
 
